@@ -1596,10 +1596,11 @@ class ComputeGraphBackProp(ComputeGraph):
         code_gen.generate_func_tail(rhs_var=self._vecfield_var_str)
 
     def _generate_vecfield(self, code_gen, indices: list, expressions: list, rhs_shapes: list, lhs_vars: list) -> list:
-        for lhs, expr in zip(lhs_vars, expressions):
+        for lhs, expr, shape in zip(lhs_vars, expressions, rhs_shapes):
             lhs_var = f"delta_{lhs}"
             code_gen.add_code_line(f"{lhs_var} = {expr}")
-            self._vecfield_vars.append(lhs_var)
+            # scalar components get a leading axis: zero-dimensional arrays cannot be concatenated
+            self._vecfield_vars.append(lhs_var if shape and sum(shape) > 1 else f"{lhs_var}[None]")
         if len(self._vecfield_vars) > 1:
             op_dict = self.backend.get_op("concatenate")
             self._vecfield_var_str = f"{op_dict['call']}([{','.join(v for v in self._vecfield_vars)}], 0)"
